@@ -44,6 +44,8 @@ struct Lang<'a> {
     tags: HashMap<String, i32>,
     memo: HashMap<(usize, u64), BTreeSet<Seq>>,
     overflow: bool,
+    /// sequences built so far (work budget: the Kleene iteration re-derives every set in every round)
+    work: u64,
 }
 
 fn real_len(s: &Seq) -> usize {
@@ -122,13 +124,15 @@ impl<'a> Lang<'a> {
                         let mut next: BTreeSet<Seq> = BTreeSet::new();
                         for a in &cur {
                             for b in sub {
+                                self.work += 1;
                                 if real_len(a) + real_len(b) <= self.max_len && a.len() + b.len() <= 4 * self.max_len + 8 {
                                     let mut c = a.clone();
                                     c.extend_from_slice(b);
                                     next.insert(c);
+                                    self.work += 4;
                                 }
                             }
-                            if next.len() > self.cap {
+                            if next.len() > self.cap || self.work > 30_000_000 {
                                 self.overflow = true;
                                 return None;
                             }
@@ -173,7 +177,7 @@ impl<'a> Lang<'a> {
 }
 
 fn language(g: &GrammarDump, tags: &HashMap<String, i32>, max_len: usize, cap: usize) -> (Option<BTreeSet<Seq>>, HashMap<String, i32>) {
-    let mut l = Lang { g, max_len, cap, tags: tags.clone(), memo: HashMap::new(), overflow: false };
+    let mut l = Lang { g, max_len, cap, tags: tags.clone(), memo: HashMap::new(), overflow: false, work: 0 };
     let r = l.compute();
     (r, l.tags)
 }
